@@ -13,6 +13,9 @@
   nextLineChecked             every next-line read goes through `lines_.at(++i_)`
   strictNumbers / exactCounts the conversions check std::stoul/std::stod's `pos` against the token length; the entry forms check the token count
   nanDiscountRejected         MDP::Model::setDiscount's guard is written so that NaN fails it (src/MDP/Model.cpp)
+  tokenizeDelims / indexSites / valueSites / writeSites / resolutionOrder / nameLastWins / singleTokenNumeric
+                              (round 3) the call sites the model hard-codes: delimiters, token positions, name tables and bounds of every
+                              index position, index order of the table writes, `*` → name table → number, `map[name] = i`
   sizeGuard                   parseMDP / parsePOMDP call `checkExtent(S, A, S)` (and `(S, A, O)`) before resizing the
                               tables, and checkExtent has the overflow-safe shape the model assumes
 
@@ -214,6 +217,23 @@ def gen_c18():
     first_stmt = ex.strip('{} \n\t').split(';')[0]
     clears_map = norm(first_stmt) == 'map.clear()'
 
+    # round 3: the call sites the model hard-codes — delimiters of every tokenize call, which token / name table / bound each index
+    # position uses, which token holds the value, the index order of every table write, the resolution order of parseIndeces
+    # (`*`, then the name table, then the number) and the last-wins binding of declared names
+    tok_delims = re.findall(r'tokenize\s*\(\s*[^,()]+(?:\([^)]*\))?\s*,\s*"([^"]*)"\s*\)', src)
+    idx_sites = re.findall(r'parseIndeces\s*\(\s*tokens\.at\((\d)\)\s*,\s*(\w+)\s*,\s*(\w+)\s*\)', src)
+    val_sites = re.findall(r'std::stod\s*\(\s*tokens\.at\((\d)\)\s*\)', src)
+    write_sites = [norm(w) for w in re.findall(r'\b[MR]\s*\[\w+\]\s*\[\w+\]\s*\[\w+\]\s*=\s*[\w\[\]]+\s*;', src)]
+    if not tok_delims or not idx_sites or not val_sites or not write_sites:
+        raise E.ExtractError('call sites of tokenize / parseIndeces / stod(tokens.at) / table writes not found')
+    try:
+        order = sorted([(pi.index('str == "*"'), 'star'), (pi.index('map.find(str)'), 'map'), (pi.index('std::stoul(str)'), 'number')])
+    except ValueError:
+        raise E.ExtractError('parseIndeces: the three resolution steps (`str == "*"`, `map.find(str)`, `std::stoul(str)`) not found')
+    res_order = [o[1] for o in order]
+    name_last_wins = bool(re.search(r'map\s*\[\s*boost::trim_copy\s*\(\s*ids\[i\]\s*\)\s*\]\s*=\s*i\s*;', ex))
+    single_numeric = bool(re.search(r'if\s*\(\s*ids\.size\(\)\s*==\s*1\s*\)', ex))
+
     b = lambda x: 'true' if x else 'false'
     strs = lambda l: '[' + ', '.join('"%s"' % x for x in l) + ']'
     body = f'''/- GENERATED by tools/extract_c18.py from {REL} — do not edit. -/
@@ -266,6 +286,20 @@ def resetsSizes : Bool := {b(resets_sizes)}
 def resetsDiscount : Bool := {b(resets_disc)}
 /-- {REL}:{ex_ln} extractIDs starts with `map.clear()`: a declaration line replaces the whole name table -/
 def extractClearsMap : Bool := {b(clears_map)}
+
+/-- delimiter argument of every `tokenize(…, "…")` call, in source order (preamble discount, extractIDs ×2, parseVector, processMatrix ×3, processReward) -/
+def tokenizeDelims : List String := {strs(tok_delims)}
+/-- every `parseIndeces(tokens.at(i), map, bound)` call: token position, name table, bound -/
+def indexSites : List (String × String × String) := [{', '.join('("%s", "%s", "%s")' % t for t in idx_sites)}]
+/-- token position of the value in the single-entry forms (`std::stod(tokens.at(i))`): T/O, then R -/
+def valueSites : List String := {strs(val_sites)}
+/-- every table write, normalised -/
+def writeSites : List String := {strs(write_sites)}
+/-- parseIndeces: order of the three readings of an index token -/
+def resolutionOrder : List String := {strs(res_order)}
+/-- extractIDs binds names with `map[name] = i` (a repeated name keeps its LAST position) and takes the number path only for a single token -/
+def nameLastWins : Bool := {b(name_last_wins)}
+def singleTokenNumeric : Bool := {b(single_numeric)}
 
 /-- the flags the operational model runs with -/
 def flags : AITB.Cassandra.Flags := ⟨rowLenThrows, sizeGuard, nanDiscountRejected, strictNumbers, exactCounts⟩
